@@ -7,6 +7,7 @@ program order; the interrupted op is absent, complete, or (byte-range writes) a
 prefix.
 """
 import errno
+import os as _realos
 import gzip as _gzip
 import io
 import types
@@ -342,15 +343,15 @@ class ForkEmu(object):
     def fork(self):
         return 0 if self.mode == 'child' else self.cur_pid
 
-    def kill(self, pid, sig):
+    def kill(self, pid, sig, by='parent'):
         ch = self.children.get(pid)
         if ch is None:
             raise ProcessLookupError(errno.ESRCH, 'No such process')
         ch['ops'] = []
-        ch['status'] = sig
+        ch['status'] = sig & 0x7f      # wait status of a process terminated by a signal
         w = CTX.world
         if w is not None:
-            w.probe('fork_child_killed_by_parent')
+            w.probe('fork_child_killed_by_' + by)
 
     def waitpid(self, pid, flags):
         ch = self.children.get(pid)
@@ -394,6 +395,8 @@ def install_seams(jr, sr, so):
     osm._exit = _exit
     osm.kill = _kill
     osm.WNOHANG = 1
+    for nm in ('WEXITSTATUS', 'WIFEXITED', 'WIFSIGNALED', 'WTERMSIG', 'WIFSTOPPED', 'WSTOPSIG'):
+        setattr(osm, nm, getattr(_realos, nm))
     mm = types.ModuleType('simmmap')
     mm.mmap = lambda fileno, length: SimMmap(_fs(), fileno, length)
     sh = types.ModuleType('simshutil')
@@ -439,7 +442,8 @@ def install_seams(jr, sr, so):
             raise HarnessError('fork child pass returned without os._exit')
         pid = fe.next_pid
         fe.next_pid += 1
-        fe.children[pid] = dict(ops=ops, status=status, t_start=w.T)
+        # wait status of a process that exited: the low byte of the exit code in bits 8-15
+        fe.children[pid] = dict(ops=ops, status=(status & 0xff) << 8, t_start=w.T)
         fe.cur_pid = pid
         w.probe('fork_child_started')
         return orig(self, data, id)     # parent pass: stores the pid and returns
